@@ -13,11 +13,20 @@
   `F(Sum([], dom, cod)) = Sum([], F dom, F cod)`, `F(Sum([d])) = Sum([F d])`, typing of the image of a
   sum, and `F` commutes with `Sum.then`, `Sum.tensor` (and `Sum.dagger` under the box-level dagger
   law).  Bubbles are not modelled (out of scope).
+  Box maps with FORMAL SUMS among their images (`FunctorS`, Model/FunctorSumImg.lean; an arrow of the
+  target is a plain diagram or a sum, `DS`): `F_typing_sumimg`, `F_id_sumimg`, `F_box_sumimg`,
+  `F_then_sumimg`, `F_tensor_sumimg` — the image of a composite / tensor is the library's `>>` / `@`
+  of the images, which on sums is the sum over all pairs of terms, the terms of the left image
+  varying slowest (`DS.thenD`, `DS.tensorD` = the order of cat.py:717 / monoidal.py:752);
+  `F_sumimg_plain`: on plain images this model IS `Functor.apply`; `F_dagger_box_sumimg`;
+  `F_dagger_sumimg_witness`: `F(d†) = F(d)†` is FALSE as `==` for two boxes sent to two-term sums
+  (same terms, different order — finding F4c04a), so no dagger law is claimed for sum images.
   `F_dagger` is proved for diagrams whose boxes satisfy the box-level dagger
   law (`F_dagger_partial`; generator boxes do) and refuted in general (`F6_swap_witness`).  FALSE for the code (finding F6, witnessed on the real code):
   `F(Swap(x,y)†) = F(Swap(x,y))†` when both images have ≥ 2 wires.
 -/
 import Proofs.FunctorSum
+import Proofs.FunctorSumImg
 
 namespace DV.C04
 open DV
@@ -169,6 +178,67 @@ theorem F_sum_dagger_partial (F : Functor) (a a' fa : Sum) (ha : a.WF) (hok : F.
     (had : a.dagger = .ok a') (hfa : F.applySum a = .ok fa) :
     ∃ r, fa.dagger = .ok r ∧ F.applySum a' = .ok r := F.applySum_dagger ha hok hdag had hfa
 
+/-! ### Box maps with formal sums among their images (Model/FunctorSumImg.lean) -/
+
+/-- The image of a well-typed diagram is well-typed (each term of it, when it is a formal sum), from
+    `F(dom)` to `F(cod)`. -/
+theorem F_typing_sumimg (F : FunctorS) (d : Diagram) (r : DS) (hd : d.WF)
+    (hok : ∀ b ∈ d.boxes, F.okOn b) (h : F.applyS d = .ok r) :
+    r.WF ∧ F.ty d.dom = .ok r.dom ∧ F.ty d.cod = .ok r.cod := F.applyS_props hd hok h
+
+theorem F_id_sumimg (F : FunctorS) (t t' : Ty) (h : F.ty t = .ok t') :
+    F.applyS (Diagram.id t) = .ok (.diag (Diagram.id t')) := F.applyS_id h
+
+/-- The image of a one-box diagram is what the box map says (a sum stays that sum, term by term). -/
+theorem F_box_sumimg (F : FunctorS) (b : Box) (x : DS) (hb : F.okOn b) (hx : F.box b = .ok x) :
+    F.applyS (Diagram.ofBox b) = .ok x := F.applyS_ofBox hb hx
+
+/-- `F(a >> b) = F(a) >> F(b)` when box images may be formal sums: the library's `>>` of the two
+    images (`DS.then`: `Diagram.then`, or `Sum.then` after wrapping a plain operand) succeeds and is
+    the image of the composite; its value `DS.thenD` lists, for sums, every pair of terms
+    `f >> g`, `f` in `F(a)` varying slowest. -/
+theorem F_then_sumimg (F : FunctorS) (a b ab : Diagram) (fa fb : DS) (ha : a.WF) (hb : b.WF)
+    (hoka : ∀ bx ∈ a.boxes, F.okOn bx) (hokb : ∀ bx ∈ b.boxes, F.okOn bx)
+    (hab : a.then b = .ok ab) (hfa : F.applyS a = .ok fa) (hfb : F.applyS b = .ok fb) :
+    fa.then fb = .ok (fa.thenD fb) ∧ F.applyS ab = .ok (fa.thenD fb) :=
+  F.applyS_then ha hb hoka hokb hab hfa hfb
+
+/-- `F(a @ b) = F(a) @ F(b)` when box images may be formal sums (terms `f @ g`, `f` slowest). -/
+theorem F_tensor_sumimg (F : FunctorS) (a b ab : Diagram) (fa fb : DS) (ha : a.WF) (hb : b.WF)
+    (hoka : ∀ bx ∈ a.boxes, F.okOn bx) (hokb : ∀ bx ∈ b.boxes, F.okOn bx)
+    (hab : a.tensor b = .ok ab) (hfa : F.applyS a = .ok fa) (hfb : F.applyS b = .ok fb) :
+    fa.tensor fb = .ok (fa.tensorD fb) ∧ F.applyS ab = .ok (fa.tensorD fb) :=
+  F.applyS_tensor ha hb hoka hokb hab hfa hfb
+
+/-- The terms of a composite of two sums, explicitly: all pairs, left factor slowest. -/
+theorem thenD_terms_sumimg (sa sb : Sum) :
+    (DS.thenD (.sum sa) (.sum sb)) =
+      .sum ⟨sa.terms.flatMap fun f => sb.terms.map (Diagram.thenD f), sa.dom, sb.cod⟩ := rfl
+
+/-- With plain images only, the model with sums among the images is `Functor.apply`. -/
+theorem F_sumimg_plain (F : Functor) (d : Diagram) : F.toS.applyS d = DS.ofDiag (F.apply d) :=
+  F.toS_applyS d
+
+/-- The image of a daggered generator is the dagger of the image (`Sum.dagger` for a sum). -/
+theorem F_dagger_box_sumimg (F : FunctorS) (b : Box) (hk : b.kind = .gen) (hd : b.dagger = false)
+    (x : DS) (hx : F.box b = .ok x) : F.box b.dag = x.dagger := F.box_dagger b hk hd hx
+
+/-- `F(d†) = F(d)†` FAILS as `==` for `f >> g` with `F(f) = a + b`, `F(g) = c + e`: four terms on
+    each side, the same ones, in different orders (finding F4c04a; same root cause as F15). -/
+theorem F_dagger_sumimg_witness :
+    (match SumImgDagger.lhs, SumImgDagger.rhs with
+     | .ok p, .ok q => p.eqv q
+     | _, _ => true) = false ∧
+    (SumImgDagger.termsOf SumImgDagger.lhs).length = 4 ∧
+    (SumImgDagger.termsOf SumImgDagger.lhs).all
+      (fun t => (SumImgDagger.termsOf SumImgDagger.rhs).contains t) = true :=
+  ⟨SumImgDagger.lhs_ne_rhs, SumImgDagger.four_terms.1, SumImgDagger.same_terms.1⟩
+
+/-- NOT A THEOREM (refuted by `F_dagger_sumimg_witness`). -/
+def F_dagger_sumimg : Prop :=
+  ∀ (F : FunctorS) (d : Diagram) (fd : DS), d.WF → (∀ b ∈ d.boxes, F.okOn b) →
+    F.applyS d = .ok fd → F.applyS d.dagger = fd.dagger
+
 /-! Non-vacuity: a functor with an empty and a two-wire object image, applied to a 2-box diagram. -/
 private def x : Ob := ⟨"x", 0⟩
 private def y : Ob := ⟨"y", 0⟩
@@ -223,5 +293,42 @@ example : (match F1.applySum s1, F1.apply d1 with
     | .ok r, .ok fd => r == ⟨[fd, fd], [p], [p]⟩ && fd.boxes.length == 5
     | _, _ => false) = true := by decide
 example : F1.applySum (Sum.zero [x, y] [y]) = .ok (Sum.zero [p, p] [p]) := by decide
+
+/-! Sum images: `f ↦ k + k'` (two terms), `g ↦ Sum([])` / a one-term sum; `F(f >> g)`, `F(f @ f)`. -/
+private def k' : Box := { name := "k'", dom := [p, q], cod := [] }
+private def m1 : Box := { name := "m1", dom := [], cod := [p, q] }
+private def m2 : Box := { name := "m2", dom := [], cod := [p, q] }
+private def FS0 : FunctorS :=
+  { ob := [("x", [p, q]), ("y", [])],
+    ar := [(f, .sum ⟨[Diagram.ofBox k, Diagram.ofBox k'], [p, q], []⟩),
+           (g, .sum ⟨[Diagram.ofBox m1, Diagram.ofBox m2], [], [p, q]⟩)] }
+private def fg : Diagram := (Diagram.ofBox f).thenD (Diagram.ofBox g)
+private def ff : Diagram := (Diagram.ofBox f).tensorD (Diagram.ofBox f)
+
+private def termBoxes : Except Err DS → List (List String × List Int)
+  | .ok (.sum s) => s.terms.map fun t => (t.boxes.map (·.name), t.offsets)
+  | _ => []
+
+example : termBoxes (FS0.applyS fg) =
+    [(["k", "m1"], [0, 0]), (["k", "m2"], [0, 0]), (["k'", "m1"], [0, 0]), (["k'", "m2"], [0, 0])] := by
+  decide
+example : termBoxes (FS0.applyS ff) =
+    [(["k", "k"], [0, 0]), (["k", "k'"], [0, 0]), (["k'", "k"], [0, 0]), (["k'", "k'"], [0, 0])] := by
+  decide
+example : (match FS0.applyS (Diagram.ofBox f), FS0.applyS (Diagram.ofBox g), FS0.applyS fg with
+    | .ok a, .ok b, .ok ab => (match a.then b with | .ok r => r == ab | .error _ => false)
+    | _, _, _ => false) = true := by decide
+example : FS0.okOn f := by
+  intro x hx
+  have : x = .sum ⟨[Diagram.ofBox k, Diagram.ofBox k'], [p, q], []⟩ := by
+    have h : FS0.box f = .ok (.sum ⟨[Diagram.ofBox k, Diagram.ofBox k'], [p, q], []⟩) := by decide
+    rw [h] at hx; exact (Except.ok.inj hx).symm
+  subst this
+  refine ⟨?_, by decide, by decide⟩
+  intro t ht
+  simp only [List.mem_cons, List.not_mem_nil, or_false] at ht
+  rcases ht with rfl | rfl
+  · exact ⟨Diagram.ofBox_wf _, rfl, rfl⟩
+  · exact ⟨Diagram.ofBox_wf _, rfl, rfl⟩
 
 end DV.C04
